@@ -3,6 +3,12 @@
 # model .vo files the extracted driver depends on (built before extraction)
 MODEL_VO = ["Base.vo", "GoOps.vo", "Gen/Tables.vo", "Gen/Preds.vo", "Token.vo", "VLQ.vo", "SourceMap.vo", "Lexer.vo", "Tree.vo", "Writer.vo", "PrinterLib.vo", "Gen/Printer.vo", "Compile.vo", "Parser.vo", "Registry.vo", "Grammar.vo"]
 
+# projections: properties that do not speak about positions compare tokens and errors without them
+POS_FREE = [(r"(\{\d+:[0-9a-f-]*):-?\d+:-?\d+:-?\d+:-?\d+:", r"\1:"),     # tokens inside trees / token streams
+            (r"(^| )(\d+:[0-9a-f-]*):-?\d+:-?\d+:-?\d+:-?\d+:", r"\1\2:"),  # lex suite tokens
+            (r"(E\d+:-?\d+):-?\d+:-?\d+:-?\d+:-?\d+", r"\1")]              # parser errors
+CODE_ONLY = [(r" v=\d+ names=.*$", ""), (r" nomap$", "")]
+
 TRUSTED_BASE = [
     "Coq 8.16.1 kernel (coqc, full .vo build; coqchk re-check in the thorough tier); vm_compute used for finite sweeps; native_compute not used",
     "axioms: none (Print Assumptions under every property theorem must print 'Closed under the global context'; the check fails otherwise)",
@@ -55,7 +61,8 @@ PROPS = {
         level_note="Trusted: Coq kernel, translator xjs2v (token/precedence/handler tables, ASI list), extraction, harness/driver correspondence. Modelled not verified: the hand-written parser control flow (differentially tested on programs, token-level mutations and fragment soups x 4 modes). Open: the clauses 'tolerant accepts two statements on one line / open blocks keeping complete statements' and 'smart semicolon = as if a semicolon preceded' are explored by the oracle, not yet theorems.",
         technique="Coq proof (simulation of two parser runs by induction on fuel) + model/implementation correspondence",
         suites=[dict(suite="parse", n_quick=3000, n_thorough=100000,
-                     what="sources x {strict,tolerant} x {smart on,off}: tree, EOF token, errors, error flag, final context")],
+                     what="sources x {strict,tolerant} x {smart on,off}: tree, EOF token, errors, error flag, final context",
+                     projection=POS_FREE)],
         oracle_n_quick=1500, oracle_n_thorough=50000,
         explanation="C13: tolerant_conservative, tolerant_no_separator_errors, smart_neutral proved for all token lists and configurations.",
         open_statements=["C13_tolerant_accepts (two statements on one line, open blocks: complete statements kept)", "C13_smart_as_semicolon"],
@@ -80,7 +87,8 @@ PROPS = {
         level_note="Trusted: Coq kernel, translator xjs2v and in particular its syntactic effects analysis (sees assignments, ++/--, delete/clear/maps.Copy destinations and plain aliasing; not reflection/unsafe), extraction, harness/driver. The Go memory model argument 'no shared mutable state => no data race' is outside Coq.",
         technique="Coq proof over the writer model + generated write-set lemmas + correspondence; goroutine exploration as search",
         suites=[dict(suite="writer", n_quick=3000, n_thorough=100000, what="random histories of the exported CodeWriter methods: buffer, indent level, mappings"),
-                dict(suite="print", n_quick=1500, n_thorough=50000, what="trees x compiler configurations: code, map, panic")],
+                dict(suite="print", n_quick=1500, n_thorough=50000, what="trees x compiler configurations: code, map, panic",
+                     projection=CODE_ONLY)],
         oracle_n_quick=60, oracle_n_thorough=2000,
         explanation="C14: C14_no_global_writes, C14_printing_is_pure, C14_map_flag_neutral, C14_debug_string; schedules explored only.",
         open_statements=["data-race freedom under goroutine interleavings (explored with -race, cannot be exhibited by a Gallina model)"],
@@ -116,7 +124,8 @@ PROPS = {
         level_text="Coq theorems over the executable parser model, for all inputs (valid or malformed), modes, interceptors and operators: every statement and expression parse step leaves the context stack exactly as it found it, and after ParseProgram the stack is [Global] (CurrentContext = Global, IsInFunction = false). The per-token nesting clause is explored by the oracle with probe interceptors against the reference unparser's nesting; the recorded finding KF8 (function bodies answer Block) is reported there.",
         level_note="Trusted: Coq kernel, translator xjs2v (context constants, tables), extraction, harness/driver correspondence (icept suite compares the probes' CurrentContext/IsInFunction log and the final context). Modelled not verified: parser control flow incl. the deferred pops.",
         technique="Coq proof (balance invariant by induction on fuel) + model/implementation correspondence",
-        suites=[dict(suite="icept", n_quick=3000, n_thorough=100000, what="sources x interceptor lists: tree, errors, final context, probe log (token, CurrentContext, IsInFunction)")],
+        suites=[dict(suite="icept", n_quick=3000, n_thorough=100000, what="sources x interceptor lists: tree, errors, final context, probe log (token, CurrentContext, IsInFunction)",
+                     projection=POS_FREE)],
         oracle_n_quick=1500, oracle_n_thorough=50000,
         explanation="C16: C16_balanced_stmt, C16_balanced_expr, C16_final_top.",
         open_statements=["C16_reflects_nesting (probe answers equal the syntactic nesting per token): explored by the oracle; false on the unchanged tree for function bodies (KF8)"],
@@ -126,8 +135,10 @@ PROPS = {
         level_text="Coq theorems over the executable parser model for all token lists and configurations: any list of pass-through, probing and re-entrant (prefix + remaining) statement/expression interceptors yields the same tree, errors, error flag, final context and token window as no interceptors; non-rewriting token interceptors leave tokens unchanged; one statement step runs the probes in installation order on the first token of the construct and then the base parser; every expression step restores the binding-power register; the token chain is entered with the lexer on the lexeme's first byte.",
         level_note="Trusted: Coq kernel, translator xjs2v, extraction, harness/driver correspondence (icept suite installs real closures of the three modelled kinds in random interleavings). The theorems quantify over the modelled interceptor shapes (pass-through, probe, re-entrant), not over arbitrary Go closures.",
         technique="Coq proof (simulation of interceptor chains by induction on fuel) + model/implementation correspondence",
-        suites=[dict(suite="icept", n_quick=3000, n_thorough=100000, what="sources x interceptor lists (0..4 per kind): tree, errors, final context, probe log"),
-                dict(suite="lex", n_quick=1500, n_thorough=50000, what="token stream")],
+        suites=[dict(suite="icept", n_quick=3000, n_thorough=100000, what="sources x interceptor lists (0..4 per kind): tree, errors, final context, probe log",
+                     projection=POS_FREE),
+                dict(suite="lex", n_quick=1500, n_thorough=50000, what="token stream",
+                     projection=POS_FREE)],
         oracle_n_quick=1500, oracle_n_thorough=50000,
         explanation="C04: C04_transparent, C04_tokens_transparent, C04_order_stmt, C04_cep_restored, C04_token_position.",
     ),
@@ -136,7 +147,8 @@ PROPS = {
         level_text="Coq theorems against a specification of ECMAScript string values (StringValue.v: SV over UTF-8 source bytes to UTF-16 code units, strict UTF-8 decoding): every valid string literal body in either quote style scans to a literal that denotes the same value between double quotes; the UTF-8 encoder regenerated from lexer/helpers.go is correct on every Unicode scalar value; backtick bodies are reproduced byte for byte by scan + print; string and number literal nodes are printed from their scanned literal verbatim. Pretty-mode trimming inside backtick literals is the recorded finding KF3.",
         level_note="Trusted: Coq kernel, translator xjs2v (isHexDigit, hexDigitValue, encodeUTF8, mustStayEscaped, WriteTo bodies), extraction, harness/driver correspondence (lex suite with the escape corpus; print suite), the SV specification. Modelled not verified: readString/readRawString control flow. Values are compared by a JavaScript engine only in the search oracle.",
         technique="Coq proof (induction over literal bodies against an ECMAScript string-value specification) + model/implementation correspondence",
-        suites=[dict(suite="lex", n_quick=4000, n_thorough=200000, what="byte strings incl. every escape shape: all token fields"),
+        suites=[dict(suite="lex", n_quick=4000, n_thorough=200000, what="byte strings incl. every escape shape: all token fields",
+                     projection=POS_FREE),
                 dict(suite="print", n_quick=1000, n_thorough=50000, what="trees x configurations: code",
                      projection=[(r" v=\d+ names=.*$", ""), (r" nomap$", "")])],
         oracle_n_quick=300, oracle_n_thorough=20000,
@@ -151,7 +163,8 @@ PROPS = {
         technique="Coq proof (tree induction against the grammar's level discipline) + model/implementation correspondence",
         suites=[dict(suite="print", n_quick=2000, n_thorough=50000, what="parser-produced and assembled trees x configurations: code, panic",
                      projection=[(r" v=\\d+ names=.*$", ""), (r" nomap$", "")]),
-                dict(suite="parse", n_quick=1500, n_thorough=50000, what="re-parse side: trees, errors")],
+                dict(suite="parse", n_quick=1500, n_thorough=50000, what="re-parse side: trees, errors",
+                     projection=POS_FREE)],
         oracle_n_quick=300, oracle_n_thorough=20000,
         explanation="C03 (tree-level clauses): C03_precedences_agree, C03_parenthesised_is_wf, C03_same_tree, C03_same_text, C03_groupify_idempotent.",
         open_statements=["C03_relex (the printed text lexes back to the token sequence of the parenthesised tree)", "byte-for-byte fixed point in pretty mode"],
@@ -164,7 +177,8 @@ PROPS = {
         suites=[dict(suite="writer", n_quick=3000, n_thorough=100000, what="CodeWriter histories incl. WriteLeadingComments"),
                 dict(suite="print", n_quick=1500, n_thorough=50000, what="trees x configurations: code",
                      projection=[(r" v=\\d+ names=.*$", ""), (r" nomap$", "")]),
-                dict(suite="lex", n_quick=2000, n_thorough=100000, what="trivia attached to tokens")],
+                dict(suite="lex", n_quick=2000, n_thorough=100000, what="trivia attached to tokens",
+                     projection=POS_FREE)],
         oracle_n_quick=600, oracle_n_thorough=20000,
         explanation="C15 (writer/printer clauses): C15_compact_none, C15_only_comment_ops_differ, C15_comments_verbatim, C15_content_inert.",
         open_statements=["C15_comments_kept (position of every comment after re-lexing the pretty output)", "C15_blank_lines"],
